@@ -54,14 +54,12 @@ Section Integral.
     - assert (0 <= y) by (unfold tmin in Hy; rewrite Hs in Hy; lia). apply residue_rem_nonneg; lia.
   Qed.
 
-  (* A: unsigned source wider than the storage type *)
+  (* A (repaired body): unsigned source at least as wide as the storage type — every source value *)
   Theorem mi_init_uwide_correct T y :
-    sg T = false -> bits St < bits T -> in_range T y -> residue p y (mi_init_uwide St p T y).
+    sg T = false -> in_range T y -> residue p y (mi_init_uwide St p T y).
   Proof.
-    destruct Hadm as [W [? ?]]. intros HsT Hb Hy. unfold mi_init_uwide, in_range in *.
-    pose proof (tmax_wider St T W Hb) as [Hmx _]. assert (wf T) as WT by (unfold wf in *; lia).
+    destruct Hadm as [W [? ?]]. intros HsT Hy. unfold mi_init_uwide, in_range in *.
     assert (0 <= y) by (unfold tmin in Hy; rewrite HsT in Hy; lia).
-    rewrite (cast_id T p) by (auto; pose proof (tmin_le_tmax T WT); lia).
     pose proof (residue_rem_nonneg p y ltac:(lia) ltac:(lia)) as [Hr Hc].
     rewrite cast_small by lia. split; auto.
   Qed.
